@@ -45,6 +45,10 @@ RULE = ("sizes: every requested size 12, 24, 25..1200 enumerated (table / "
         "non-trivial = sizes: size > 24; extension: size > Nzc; est/occ: "
         "(>= 2 channel taps and >= 1 interfering user) or size > 1009; "
         "ls: >= 2 transmit antennas. distinct = SHA-1 of the case description")
+RULE += (" Added after the white-box review: "
+         "channel gains down to 1e-12, real pilots with a complex "
+         "channel ")
+
 LEVEL_TEXT = ("Exhaustive enumeration of all requested sizes 12, 24, 25..1200 "
               "for the prime selection, cyclic extension and shift "
               "orthogonality (CAZAC identities for sampled roots per size), "
